@@ -120,6 +120,25 @@ CHECKS = {
         note=NOTE + " Layers covered by theorem + twins in this check: the three managers, the OpenSpiel adapter, "
              "GymABS. The grid-world state components (placement, health, ammo, orientation) and the super-agent and "
              "communication wrappers have their reset clauses proved and twin-tested in C13/C03, C14 and C20."),
+    "C19": dict(
+        text="Lean 4 theorems over a universe PyVal of Python values (None, bool, int, float incl. nan/inf, str, list, "
+             "tuple, set, dict, numpy arrays with dtype/shape, numpy scalars, agent objects): overlap_closure_symmetric "
+             "(for every overlap table, int- or set-valued, one-sided or not, the table the Grid setter stores makes "
+             "availability symmetric), close_superset/close_minimal, query_symmetric/place_symmetric, close_is_dict; one "
+             "accepts_*_iff per validated attribute of every agent class, Grid and the components (model acceptance <=> "
+             "a first-order description of the admissible values, for all PyVal; rejected_at_finalize_only says which "
+             "are checked late), model_meets_specAccept (the model's outcome satisfies the documented rule specAccept: "
+             "malformed => rejected when supplied or at finalize/reset, clearly valid => accepted); box_contains_iff "
+             "characterises abmarl.tools.Box.contains on all PyVal outside the K2 exception, which box_k2_truncates "
+             "states and box_k2_witness decides; model_meets_specBox / model_meets_specOverlapSym. Tie: ~7000 "
+             "(site, value) cases on the real constructors/setters/finalize/reset, every overlap table over <=3 encodings "
+             "and random ones up to 6 on the real Grid (place then query/place), ~5000 candidate points per Box kind "
+             "(16 kinds); outcomes must equal the model's and the spec predicates are evaluated by the driver on the "
+             "implementation's outcome. The open finding K2 is reported as KNOWN-FINDING; K19a (falsy null points "
+             "unchecked at finalize) was fixed in fc3584a, its reproducers stay in the corpus as regression cases.",
+        design="§5 C19", technique="Lean 4 proof (case analysis over a Python value universe, induction over the closure "
+                                   "loops, mutual structural induction over nested lists for np.asarray) + differential "
+                                   "correspondence of the hand-written model with the real setters, Grid and Box"),
 }
 
 PENDING = {
